@@ -19,9 +19,12 @@ def dd_runs(chk, w, tier, families, extra=None, module="TraceDD", cfg="TraceDD.c
     for b in range(nb):
         for fam in families:
             tr = os.path.join(w, f"{name}_{fam}_{b}.ndjson")
-            args = ["--seed", SEED * 1000 + b, "--instances", insts or (350 if not thorough else 500), "--per-instance", per or 25, "--family", fam, "--out", tr] + (extra or [])
+            # --sweep k: k times more compilations per instance, unlogged unless the engine's numeric pre-filter finds their values suspect
+            # (selection only: every logged compilation is judged by TLC against DDContract)
+            args = ["--seed", SEED * 1000 + b, "--instances", insts or (350 if not thorough else 500), "--per-instance", per or 25, "--family", fam, "--sweep", 12, "--out", tr] + (extra or [])
             run_bin("dd", args)
             batches.append((tr, args))
+            chk.cov["sweep_compilations_prefiltered_not_logged"] = chk.cov.get("sweep_compilations_prefiltered_not_logged", 0) + 3 * args[3] * args[5] * 12
     total = 0
     from concurrent.futures import ThreadPoolExecutor
     def val(x):
